@@ -655,8 +655,12 @@ class StmtMixin(object):
         if contains_yield(body) and s.out_n is not None:
             s.out_n = fresh('nout')
             s.out_arr = [fresh('out', z3.ArraySort(z3.IntSort(), z3.IntSort())) for _ in s.out_arr]
+            # ghost variables change at yields (on_yield) or through sidecar callee models: a body without any call can only change the former
+            has_call = any(isinstance(x, ast.Call) for b in body for x in ast.walk(b))
+            targets = set(g for g, _ in self.spec.on_yield)
             for g, (sort, _) in self.spec.ghost.items():
-                s.ghost[g] = self.havoc_value(s.ghost[g], g)
+                if has_call or g in targets:
+                    s.ghost[g] = self.havoc_value(s.ghost[g], g)
             s.pc.append(s.out_n >= 0)
         return s
 
